@@ -7,11 +7,11 @@
 V=$(cd "$(dirname "$0")/.." && pwd)
 W=${1:-4}
 OUT=$V/seeded/${SWEEP_OUT:-SWEEP.txt}; : > "$OUT.tmp"
-ls "$V/seeded" | grep '^C[0-9][0-9]-' | grep -E -e "${SEEDS:-.}" > /root/work/sweep-all.txt
+ls "$V/seeded" | grep '^C[0-9][0-9]-' | grep -E -e "${SEEDS:-.}" > /root/work/sweep-all-$$.txt
 i=0
 while [ $i -lt $W ]; do
-  ( D=/root/work/sweep$i; rm -rf $D; cp -a "$V" $D; rm -f $D/.build/lock* 
-    awk -v w=$W -v i=$i 'NR%w==i' /root/work/sweep-all.txt | while read S; do
+  ( D=/root/work/sweep-$$-$i; rm -rf $D; cp -a "$V" $D; rm -f $D/.build/lock* 
+    awk -v w=$W -v i=$i 'NR%w==i' /root/work/sweep-all-$$.txt | while read S; do
       P=$(python3 -c "import json;print(json.load(open('$V/seeded/$S/meta.json'))['breaks_property'])")
       R=$(VERIF_TIER=${VERIF_TIER:-quick} $D/tools/seedtest.sh "$V/seeded/$S/patch.diff" $P 2>&1 | head -4 | tr '\n' ' ' | cut -c1-400)
       echo "$S $R" >> "$OUT.tmp"
@@ -19,5 +19,5 @@ while [ $i -lt $W ]; do
   i=$((i+1))
 done
 wait
-sort "$OUT.tmp" > "$OUT"; rm -f "$OUT.tmp" /root/work/sweep-all.txt
+sort "$OUT.tmp" > "$OUT"; rm -f "$OUT.tmp" /root/work/sweep-all-$$.txt
 echo "detected: $(grep -c ' DETECTED ' "$OUT")  missed: $(grep -c ' MISSED ' "$OUT")  other: $(grep -vc ' DETECTED \| MISSED ' "$OUT")"
